@@ -1,10 +1,12 @@
 // Package c03: an agent commits a blob only after every piece is verified (property C03).
 //
-// Up to three writer goroutines call WritePiece on one real agentstorage.Torrent; each payload is a
-// gated storage.PieceReader whose first Read blocks until the driver releases it, i.e. the writer is
-// held after tryMarkDirty and before any byte reaches the file.  The driver picks the interleaving
-// (Start / Finish steps) from the seed; after every step Bitfield, Complete and BytesDownloaded are
-// logged, at the end the cache file is compared with the blob.
+// Up to three writer goroutines call WritePiece on one real agentstorage.Torrent.  A writer is held at
+// three gates: the verifPoint before piece.tryMarkDirty (after the lock-free quick checks), the first
+// Read of its storage.PieceReader (after tryMarkDirty, before any byte reaches the file) and the
+// verifPoint after the piece was marked complete and counted (before the "all pieces complete -> move
+// to cache" test).  The driver advances one writer at a time and picks the interleaving of the
+// Check / TryDirty / Write / Commit steps from the seed; after every step Bitfield, Complete and
+// BytesDownloaded are logged, at the end the cache file is compared with the blob.
 package c03
 
 import (
@@ -15,6 +17,7 @@ import (
 	"io"
 	"math/rand"
 	"os"
+	"sync/atomic"
 	"time"
 
 	"github.com/uber-go/tally"
@@ -30,24 +33,18 @@ import (
 
 func init() { eng.Register("c03", run) }
 
-// gated piece reader
+// gated piece reader: its first Read parks the writer
 type gated struct {
-	data    []byte
-	r       *bytes.Reader
-	length  int
-	entered chan struct{}
-	release chan struct{}
-	first   bool
+	r      *bytes.Reader
+	length int
+	first  bool
+	w      *writer
 }
 
-func newGated(data []byte, claimed int) *gated {
-	return &gated{data: data, r: bytes.NewReader(data), length: claimed, entered: make(chan struct{}, 1), release: make(chan struct{}), first: true}
-}
 func (g *gated) Read(p []byte) (int, error) {
 	if g.first {
 		g.first = false
-		g.entered <- struct{}{}
-		<-g.release
+		g.w.park("reader")
 	}
 	return g.r.Read(p)
 }
@@ -62,11 +59,40 @@ const (
 )
 
 type writer struct {
-	busy bool
-	g    *gated
-	done chan error
-	i    int
-	c    string
+	pc     string // idle | checked | writing | written
+	at     chan string
+	resume chan struct{}
+	done   chan error
+	i      int
+	c      string
+}
+
+func (w *writer) park(point string) {
+	w.at <- point
+	<-w.resume
+}
+
+// the writer the driver is advancing: every gate reached while it runs belongs to it (all others are parked)
+var current atomic.Pointer[writer]
+
+func init() {
+	agentstorage.VerifHook = func(point string) {
+		if w := current.Load(); w != nil {
+			w.park(point)
+		}
+	}
+}
+
+// advance lets w run to its next gate or to the end of its call.
+func (w *writer) advance() (point string, err error, returned, ok bool) {
+	select {
+	case point = <-w.at:
+		return point, nil, false, true
+	case err = <-w.done:
+		return "", err, true, true
+	case <-time.After(5 * time.Second):
+		return "", nil, false, false
+	}
 }
 
 func run(c *eng.Ctx) error {
@@ -135,7 +161,7 @@ func one(c *eng.Ctx, t int, rng *rand.Rand, dir string) bool {
 		}
 		return append(kv, "bits", bits, "complete", tor.Complete(), "downloaded", int(tor.BytesDownloaded()))
 	}
-	ws := []*writer{{}, {}, {}}
+	ws := []*writer{{pc: "idle"}, {pc: "idle"}, {pc: "idle"}}
 	wn := []string{"w1", "w2", "w3"}
 	piece := func(i int) []byte {
 		off := i * pl
@@ -146,15 +172,21 @@ func one(c *eng.Ctx, t int, rng *rand.Rand, dir string) bool {
 		return blob[off:end]
 	}
 	classes := []string{"good", "good", "good", "corrupt", "short", "long"}
-	steps := 10 + rng.Intn(16)
-	for s := 0; s < steps; s++ {
-		wi := rng.Intn(len(ws))
+	hot := 1 + rng.Intn(n) // the piece most writers fight for
+	// step advances writer wi by one model step; false = the schedule could not be forced
+	step := func(wi int) bool {
 		w := ws[wi]
-		if !w.busy {
-			// Start: model index 0..N+1 (0 and N+1 are out of range; the real index is model-1)
+		current.Store(w)
+		defer current.Store(nil)
+		switch w.pc {
+		case "idle":
+			// model index 0..N+1 (0 and N+1 are out of range; the real index is model-1)
 			mi := rng.Intn(n + 2)
 			if rng.Intn(4) > 0 {
 				mi = 1 + rng.Intn(n)
+				if rng.Intn(2) == 0 {
+					mi = hot
+				}
 			}
 			cl := classes[rng.Intn(len(classes))]
 			var data []byte
@@ -171,23 +203,24 @@ func one(c *eng.Ctx, t int, rng *rand.Rand, dir string) bool {
 			case "long":
 				data = append(data, 9)
 			}
-			w.g, w.done, w.i, w.c = newGated(data, len(data)), make(chan error, 1), mi, cl
+			w.at, w.resume, w.done, w.i, w.c = make(chan string, 1), make(chan struct{}), make(chan error, 1), mi, cl
+			g := &gated{r: bytes.NewReader(data), length: len(data), first: true, w: w}
 			go func(w *writer, idx int) {
 				defer func() {
 					if r := recover(); r != nil {
 						w.done <- fmt.Errorf("panic: %v", r)
 					}
 				}()
-				w.done <- tor.WritePiece(w.g, idx)
+				w.done <- tor.WritePiece(g, idx)
 			}(w, mi-1)
-			select {
-			case <-w.g.entered:
-				w.busy = true
-				c.W.Ev("Start", obs([]any{"w", wn[wi], "i", mi, "c", cl, "res", "gated"})...)
-			case err := <-w.done:
+			point, err, returned, ok := w.advance()
+			switch {
+			case !ok:
+				c.W.Ev("Drift", "why", "writer neither reached a gate nor returned")
+				return false
+			case returned:
 				res := cls(err)
-				if res == "error" {
-					// rejected before touching the file: classify by what the model can say
+				if res == "error" { // rejected before touching the file: classify by what the model can say
 					switch {
 					case mi < 1 || mi > n:
 						res = "badindex"
@@ -197,30 +230,86 @@ func one(c *eng.Ctx, t int, rng *rand.Rand, dir string) bool {
 						res = "conflict"
 					}
 				}
-				c.W.Ev("Start", obs([]any{"w", wn[wi], "i", mi, "c", cl, "res", res})...)
-			case <-time.After(3 * time.Second):
-				c.W.Ev("Drift", "why", "writer neither entered the reader nor returned")
+				c.W.Ev("Check", obs([]any{"w", wn[wi], "i", mi, "c", cl, "res", res})...)
+			case point == "piece.trymarkdirty":
+				w.pc = "checked"
+				c.W.Ev("Check", obs([]any{"w", wn[wi], "i", mi, "c", cl, "res", "checked"})...)
+			default:
+				c.W.Ev("Check", obs([]any{"w", wn[wi], "i", mi, "c", cl, "res", "at:" + point})...)
 				return false
 			}
-			continue
+		case "checked":
+			w.resume <- struct{}{}
+			point, err, returned, ok := w.advance()
+			switch {
+			case !ok:
+				c.W.Ev("Drift", "why", "released writer neither reached a gate nor returned")
+				return false
+			case returned:
+				w.pc = "idle"
+				res := cls(err)
+				if res == "error" {
+					res = "conflict"
+				}
+				c.W.Ev("TryDirty", obs([]any{"w", wn[wi], "res", res})...)
+			case point == "reader":
+				w.pc = "writing"
+				c.W.Ev("TryDirty", obs([]any{"w", wn[wi], "res", "gated"})...)
+			default:
+				c.W.Ev("TryDirty", obs([]any{"w", wn[wi], "res", "at:" + point})...)
+				return false
+			}
+		case "writing":
+			w.resume <- struct{}{}
+			point, err, returned, ok := w.advance()
+			switch {
+			case !ok:
+				c.W.Ev("Drift", "why", "released writer neither reached a gate nor returned")
+				return false
+			case returned:
+				w.pc = "idle"
+				res := cls(err)
+				if res == "ok" {
+					res = "returned-ok-without-marking" // cannot happen: a successful write passes the piece.marked gate
+				}
+				c.W.Ev("Write", obs([]any{"w", wn[wi], "res", res})...)
+			case point == "piece.marked":
+				w.pc = "written"
+				c.W.Ev("Write", obs([]any{"w", wn[wi], "res", "written"})...)
+			default:
+				c.W.Ev("Write", obs([]any{"w", wn[wi], "res", "at:" + point})...)
+				return false
+			}
+		case "written":
+			w.resume <- struct{}{}
+			_, err, returned, ok := w.advance()
+			if !ok || !returned {
+				c.W.Ev("Drift", "why", "writer did not return after the last gate")
+				return false
+			}
+			w.pc = "idle"
+			c.W.Ev("Commit", obs([]any{"w", wn[wi], "res", cls(err)})...)
 		}
-		// Finish
-		close(w.g.release)
-		select {
-		case err := <-w.done:
-			w.busy = false
-			c.W.Ev("Finish", obs([]any{"w", wn[wi], "res", cls(err)})...)
-		case <-time.After(3 * time.Second):
-			c.W.Ev("Drift", "why", "released writer did not return")
+		return true
+	}
+	steps := 16 + rng.Intn(40)
+	sticky := rng.Intn(3) == 0 // one third of the traces mostly run a call to its end (coarse interleavings)
+	last := 0
+	for s := 0; s < steps; s++ {
+		wi := rng.Intn(len(ws))
+		if sticky && ws[last].pc != "idle" && rng.Intn(4) > 0 {
+			wi = last
+		}
+		last = wi
+		if !step(wi) {
 			return false
 		}
 	}
-	for wi, w := range ws { // let the writers still inside the reader finish
-		if w.busy {
-			close(w.g.release)
-			err := <-w.done
-			w.busy = false
-			c.W.Ev("Finish", obs([]any{"w", wn[wi], "res", cls(err)})...)
+	for wi, w := range ws { // let the writers still at a gate finish
+		for w.pc != "idle" {
+			if !step(wi) {
+				return false
+			}
 		}
 	}
 	cached, ok := false, false
